@@ -95,6 +95,7 @@ def handle : List String → Option String
     let s ← dec t
     if which == "neg" then some s!"ok {enc (String.ofList (Str.negativeSub s.toList))}"
     else if which == "op" then some s!"ok {enc (String.ofList (Str.nonUnarySub s.toList))}"
+    else if which == "negbase" then some s!"ok {enc (String.ofList (Str.negativeBaseSub s.toList))}"
     else none
   | _ => none
 
